@@ -4,12 +4,18 @@ package remoteclient
 
 import (
 	"bytes"
+	"encoding/binary"
+	stdjson "encoding/json"
 	"fmt"
 	"math"
 	"reflect"
 	"testing"
 
+	"google.golang.org/protobuf/encoding/protojson"
 	"google.golang.org/protobuf/proto"
+	"google.golang.org/protobuf/reflect/protoreflect"
+	"google.golang.org/protobuf/types/known/durationpb"
+	"google.golang.org/protobuf/types/known/timestamppb"
 	"pgregory.net/rapid"
 
 	"github.com/tochemey/goakt/v4/internal/vfkit"
@@ -393,7 +399,119 @@ type (
 )
 
 // registration slots: message kind -> codec
-var c25DispKinds = []string{"doc", "tick", "ratio", "label", "int64", "int", "uint8", "float64", "string", "bool", "opaque"}
+var c25DispKinds = []string{"doc", "tick", "ratio", "label", "int64", "int", "uint8", "float64", "string", "bool", "opaque", "pjdur", "pjts", "span"}
+
+// ---- user serializers that follow the shared frame layout ("a custom implementation
+// can interoperate by following the same pattern", remote.Serializer) ----------------
+
+// c25ProtoJSON is a user serializer registered for ONE concrete proto message type
+// (WithClientSerializers: "Pass any value of the target type to bind a serializer to
+// that exact type"). Its frames use the shared [totalLen|nameLen|name|payload] layout
+// with the proto full name, but the payload is protojson text, not protobuf wire
+// format. The receive-side dispatcher documents this shape: "A registry hit with a
+// failed decode ... (e.g. a non-proto payload under a colliding name); fall through
+// to the ordered loop" and "everything else tries each registered serializer in
+// registration order".
+type c25ProtoJSON struct{ Name protoreflect.FullName }
+
+func (p *c25ProtoJSON) Serialize(msg any) ([]byte, error) {
+	pm, ok := msg.(proto.Message)
+	if !ok || pm == nil || pm.ProtoReflect().Descriptor().FullName() != p.Name {
+		return nil, fmt.Errorf("c25ProtoJSON(%s): unsupported message %T", p.Name, msg)
+	}
+	payload, err := protojson.Marshal(pm)
+	if err != nil {
+		return nil, err
+	}
+	return c25SharedFrame(string(p.Name), payload), nil
+}
+
+func (p *c25ProtoJSON) Deserialize(data []byte) (any, error) {
+	name, payload, ok := c25SplitSharedFrame(data)
+	if !ok || name != string(p.Name) {
+		return nil, fmt.Errorf("c25ProtoJSON(%s): not my frame", p.Name)
+	}
+	var out proto.Message
+	switch p.Name {
+	case "google.protobuf.Duration":
+		out = new(durationpb.Duration)
+	case "google.protobuf.Timestamp":
+		out = new(timestamppb.Timestamp)
+	default:
+		return nil, fmt.Errorf("c25ProtoJSON: unknown type %s", p.Name)
+	}
+	if err := protojson.Unmarshal(payload, out); err != nil {
+		return nil, err
+	}
+	return out, nil
+}
+
+// c25Spanner is a user interface; c25XorJSON is registered for it
+// (WithClientSerializers((*c25Spanner)(nil), ...)). Frames: shared layout, the type's
+// lower-cased Go name, payload = JSON xor 0x5A (neither CBOR nor JSON nor protobuf).
+type c25Spanner interface{ c25SpanMark() }
+
+type c25Span struct {
+	Seconds int64
+	Label   string
+}
+
+func (*c25Span) c25SpanMark() {}
+
+type c25XorJSON struct{ Key byte }
+
+const c25SpanWireName = "remoteclient.c25span"
+
+func (x *c25XorJSON) Serialize(msg any) ([]byte, error) {
+	sp, ok := msg.(*c25Span)
+	if !ok || sp == nil {
+		return nil, fmt.Errorf("c25XorJSON: unsupported message %T", msg)
+	}
+	b, err := stdjson.Marshal(sp)
+	if err != nil {
+		return nil, err
+	}
+	for i := range b {
+		b[i] ^= x.Key
+	}
+	return c25SharedFrame(c25SpanWireName, b), nil
+}
+
+func (x *c25XorJSON) Deserialize(data []byte) (any, error) {
+	name, payload, ok := c25SplitSharedFrame(data)
+	if !ok || name != c25SpanWireName {
+		return nil, fmt.Errorf("c25XorJSON: not my frame")
+	}
+	b := append([]byte{}, payload...)
+	for i := range b {
+		b[i] ^= x.Key
+	}
+	out := new(c25Span)
+	if err := stdjson.Unmarshal(b, out); err != nil {
+		return nil, err
+	}
+	return out, nil
+}
+
+func c25SharedFrame(name string, payload []byte) []byte {
+	out := make([]byte, 8, 8+len(name)+len(payload))
+	binary.BigEndian.PutUint32(out[0:4], uint32(8+len(name)+len(payload)))
+	binary.BigEndian.PutUint32(out[4:8], uint32(len(name)))
+	out = append(out, name...)
+	return append(out, payload...)
+}
+
+func c25SplitSharedFrame(data []byte) (name string, payload []byte, ok bool) {
+	if len(data) < 8 {
+		return "", nil, false
+	}
+	total := int(binary.BigEndian.Uint32(data[0:4]))
+	nameLen := int(binary.BigEndian.Uint32(data[4:8]))
+	if total != len(data) || nameLen <= 0 || 8+nameLen > total {
+		return "", nil, false
+	}
+	return string(data[8 : 8+nameLen]), data[8+nameLen : total], true
+}
 
 type c25DispReg struct {
 	Kind  string `json:"kind"`
@@ -411,6 +529,7 @@ type c25DispMsg struct {
 	AK    []string `json:"ak,omitempty"`
 	AV    []string `json:"av,omitempty"`
 	Depth int      `json:"depth,omitempty"`
+	Nanos int32    `json:"nanos,omitempty"`
 }
 
 type c25DispatchCase struct {
@@ -460,6 +579,20 @@ func c25GenDispMsg(t *rapid.T, kinds []string) c25DispMsg {
 		m.B = rapid.Bool().Draw(t, "bval")
 	case "opaque":
 		m.Bytes = rapid.SliceOfN(rapid.Byte(), 0, 16).Draw(t, "opaque")
+	case "pjdur":
+		// valid durations only (protojson refuses the others): |seconds| <= 315576000000, nanos of the same sign
+		m.I = rapid.OneOf(rapid.Int64Range(-100, 100), rapid.SampledFrom([]int64{0, 1, -1, 315576000000, -315576000000}), rapid.Int64Range(-315576000000, 315576000000)).Draw(t, "dur_s")
+		n := rapid.OneOf(rapid.SampledFrom([]int32{0, 1, 500000000, 999999999, 1000, 1000000}), rapid.Int32Range(0, 999999999)).Draw(t, "dur_n")
+		if m.I < 0 || (m.I == 0 && rapid.Bool().Draw(t, "dur_neg")) {
+			n = -n
+		}
+		m.Nanos = n
+	case "pjts":
+		m.I = rapid.OneOf(rapid.Int64Range(0, 4102444800), rapid.SampledFrom([]int64{-62135596800, 253402300799, 0, -1}), rapid.Int64Range(-62135596800, 253402300799)).Draw(t, "ts_s")
+		m.Nanos = rapid.OneOf(rapid.SampledFrom([]int32{0, 1, 999999999, 1000000}), rapid.Int32Range(0, 999999999)).Draw(t, "ts_n")
+	case "span":
+		m.I = c25GenSmallI64(t, "span_s")
+		m.S = rapid.StringN(0, 10, 40).Draw(t, "span_label")
 	case "never":
 		m.I = rapid.Int64Range(0, 9).Draw(t, "never")
 	}
@@ -477,6 +610,10 @@ func c25GenDispatch(t *rapid.T) c25DispatchCase {
 		switch {
 		case k == "opaque":
 			r.Codec = "mark"
+		case k == "pjdur" || k == "pjts":
+			r.Codec = "protojson"
+		case k == "span":
+			r.Codec = "xorjson"
 		case mode == "mixed":
 			r.Codec = rapid.SampledFrom([]string{"cbor", "json"}).Draw(t, "codec")
 		default:
@@ -522,6 +659,12 @@ func c25DispTarget(kind string) any {
 		return false
 	case "opaque":
 		return new(c25Opaque)
+	case "pjdur":
+		return new(durationpb.Duration)
+	case "pjts":
+		return new(timestamppb.Timestamp)
+	case "span":
+		return (*c25Spanner)(nil)
 	}
 	panic("c25: unknown kind " + kind)
 }
@@ -568,6 +711,12 @@ func (m c25DispMsg) build() any {
 		return m.B
 	case "opaque":
 		return &c25Opaque{Body: append([]byte{}, m.Bytes...)}
+	case "pjdur":
+		return &durationpb.Duration{Seconds: m.I, Nanos: m.Nanos}
+	case "pjts":
+		return &timestamppb.Timestamp{Seconds: m.I, Nanos: m.Nanos}
+	case "span":
+		return &c25Span{Seconds: m.I, Label: m.S}
 	case "reply":
 		return &testpb.Reply{Content: m.S}
 	case "count":
@@ -608,6 +757,10 @@ func c25DispEq(want, got any) string {
 		if !c25DocEq(w, got.(*c25Doc)) {
 			return fmt.Sprintf("sent %+v, received %+v", *w, *got.(*c25Doc))
 		}
+	case *c25Span:
+		if *w != *got.(*c25Span) {
+			return fmt.Sprintf("sent %+v, received %+v", *w, *got.(*c25Span))
+		}
 	case *c25Opaque:
 		if !bytes.Equal(w.Body, got.(*c25Opaque).Body) {
 			return fmt.Sprintf("sent %x, received %x", w.Body, got.(*c25Opaque).Body)
@@ -643,6 +796,7 @@ func c25ExecDispatch(x *vfkit.X, c c25DispatchCase) {
 	var opts []ClientOption
 	codecOf := map[string]string{}
 	hasCodec := map[string]bool{}
+	userSer := map[string]remote.Serializer{}
 	for _, r := range c.Plan {
 		var s remote.Serializer
 		switch r.Codec {
@@ -650,9 +804,18 @@ func c25ExecDispatch(x *vfkit.X, c c25DispatchCase) {
 			s = cbor
 		case "json":
 			s = json
+		case "protojson":
+			name := protoreflect.FullName("google.protobuf.Duration")
+			if r.Kind == "pjts" {
+				name = "google.protobuf.Timestamp"
+			}
+			s = &c25ProtoJSON{Name: name}
+		case "xorjson":
+			s = &c25XorJSON{Key: 0x5A}
 		default:
 			s = &c25Mark{ID: 7}
 		}
+		userSer[r.Kind] = s
 		opts = append(opts, WithClientSerializers(c25DispTarget(r.Kind), s))
 		codecOf[r.Kind] = r.Codec
 		hasCodec[r.Codec] = true
@@ -702,6 +865,31 @@ func c25ExecDispatch(x *vfkit.X, c c25DispatchCase) {
 			// listed finding: top-level numeric payloads are valid in both formats
 			x.Class("excluded_known_ambiguity")
 			continue
+		}
+		if codec == "protojson" {
+			// an exact-type entry for a concrete proto message: the documented order selects it
+			// ("1. Exact concrete type"). While the exact-loses-to-interface finding is listed,
+			// Serializer(msg) may answer with the default proto serializer: that frame is
+			// checked too, then the message is sent with the serializer the documentation selects.
+			if _, isUser := send.(*c25ProtoJSON); !isUser {
+				if !x.Known(fpC25ExactLoses) {
+					x.Failf(fpC25ExactLoses, "plan %v: Serializer(%T) returned %T, documented order selects the exact-type entry (c25ProtoJSON)", c.Plan, msg, send)
+				}
+				pdata, perr := send.Serialize(msg)
+				if perr != nil {
+					x.Failf("dispatch-serialize-refused-proto", "plan %v: %T.Serialize(%v) failed: %v", c.Plan, send, msg, perr)
+				}
+				pgot, perr := recv.Deserialize(pdata)
+				if perr != nil {
+					x.Failf("dispatch-roundtrip-decode-error-proto", "plan %v: %v sent with %T does not decode on the receive path: %v", c.Plan, msg, send, perr)
+				}
+				if d := c25DispEq(msg, pgot); d != "" {
+					x.Failf("dispatch-roundtrip-not-equal-proto", "plan %v: %s via %T: %s", c.Plan, m.Kind, send, d)
+				}
+				x.Class("known_exact_loses_sent_with_documented_serializer")
+				send = userSer[m.Kind]
+			}
+			x.Class("user_serializer_proto_name_non_proto_payload")
 		}
 		data, err := send.Serialize(msg)
 		if err != nil {
@@ -768,7 +956,7 @@ func c25PayloadLen(frame []byte) int {
 func TestVF_C25_dispatch(t *testing.T) {
 	vfkit.Run(t, vfkit.Spec[c25DispatchCase]{
 		ID: "C25", Unit: "dispatch",
-		Rule: "cases = registration plan (1..11 message kinds: struct, named int64/float64/string, builtin primitives, opaque user type; each bound to CBOR, JSON or a user serializer, generated order) given to NewClient, 1..6 messages of registered kinds (+ proto messages, + a never-registered type) sent through Serializer(msg).Serialize and received through Serializer(nil).Deserialize, plus one garbage frame; non-trivial = a CBOR/JSON message round-tripped on a client that has both formats registered, or any round trip with >= 2 registrations",
+		Rule: "cases = registration plan (1..14 message kinds: struct, named int64/float64/string, builtin primitives, opaque user type, *durationpb.Duration / *timestamppb.Timestamp bound to a user serializer whose shared-layout frames carry the proto full name and a protojson payload, a user interface bound to a user serializer with an xor'ed JSON payload; the others bound to CBOR, JSON or a magic-framed user serializer; generated order) given to NewClient, 1..6 messages of registered kinds (+ proto messages, + a never-registered type) sent through Serializer(msg).Serialize and received through Serializer(nil).Deserialize, plus one garbage frame; non-trivial = a CBOR/JSON message round-tripped on a client that has both formats registered, or any round trip with >= 2 registrations",
 		Gen:  c25GenDispatch, Exec: c25ExecDispatch,
 	})
 }
